@@ -205,6 +205,8 @@ def run_check(prop, tier, seed, spec, work, t0):
         "timeout_ms": spec.get("timeout_ms", {}).get(tier, 20000 if tier == "quick" else 120000),
         "models": spec.get("models", {}), "no_init_pkgs": spec.get("no_init_pkgs", []),
         "verbose": bool(os.environ.get("VERIF_VERBOSE")), "tier": 1 if tier == "thorough" else 0,
+        # VERIF_SOLVER="z3-new -in" / "cvc5 --incremental --lang=smt2" runs the same encoding on another back end
+        "solver": (os.environ.get("VERIF_SOLVER") or "z3 -in").split(),
     }
     out, err, engine_s = run_engine(work, espec)
     inconclusive = []
@@ -355,7 +357,7 @@ def run_check(prop, tier, seed, spec, work, t0):
             "paths": tot["paths"], "paths_ok": tot["ok"], "paths_infeasible": tot["infeasible"],
             "interpreted_ssa_instructions": tot["steps"],
             "obligations": tot["asserts"], "obligations_decided_concretely": tot["asserts_conc"],
-            "solver": {"binary": "z3 -in (4.8.12)", "queries": tot["queries"], "sat": tot["sat"], "unsat": tot["unsat"], "unknown": tot["unknown"], "errors": tot["errors"], "seconds": round(tot["solver_s"], 2)},
+            "solver": {"binary": (os.environ.get("VERIF_SOLVER") or "z3 -in (4.8.12)"), "queries": tot["queries"], "sat": tot["sat"], "unsat": tot["unsat"], "unknown": tot["unknown"], "errors": tot["errors"], "seconds": round(tot["solver_s"], 2)},
             "functions_encoded": repo_funcs[:400], "functions_encoded_total": len(funcs),
             "bounds": spec.get("bounds", {}).get(tier, ""), "outside_bounds": spec.get("outside", ""),
             "entries": per_entry, "vacuity_covers": covers,
